@@ -317,7 +317,7 @@ def oracle_case(ctx, kind, g, rng, kmax, op, order=1):
 
 def run_oracle(ctx):
     rng = np_seed(ctx, 12)
-    n = ctx.n(12, 70)
+    n = ctx.n(20, 90)
     for kind in gm.KINDS:
         done = 0
         tries = 0
